@@ -73,10 +73,12 @@ def make_signer(kind, key_idx, for_interest):
     raise HarnessError(f'signer {kind}')
 
 
-def make_checker(kind, key_idx):
-    """The library's matching verifier, legacy calling convention: async (name, sig_ptrs) -> bool"""
+def make_checker(kind, key_idx, name_idx=None):
+    """The library's matching verifier, legacy calling convention: async (name, sig_ptrs) -> bool
+    (name_idx: the key NAME the verifier is built for, when it differs from the key material - a key that was replaced
+    under its old name, or simply the wrong key file)"""
     p = pool()
-    kname = f'/keys/{kind}/{key_idx}'
+    kname = f'/keys/{kind}/{key_idx if name_idx is None else name_idx}'
     if kind == 'digest':
         return sec.sha256_digest_checker
     if kind == 'hmac':
@@ -438,9 +440,10 @@ class SigWorld(World):
     # ---- validators ---------------------------------------------------------------------------
     def _wrap_checker(self, flow, fe, role):
         kind, kidx = flow['signer'], flow['key'] if flow.get('verifier', 'match') == 'match' else flow['key'] + 1
-        if (kind, kidx) not in self.checkers:
-            self.checkers[(kind, kidx)] = make_checker(kind, kidx)
-        checker = self.checkers[(kind, kidx)]
+        nidx = flow['key'] if flow.get('verifier') == 'samename' else None
+        if (kind, kidx, nidx) not in self.checkers:
+            self.checkers[(kind, kidx, nidx)] = make_checker(kind, kidx, nidx)
+        checker = self.checkers[(kind, kidx, nidx)]
         world = self
 
         async def run(name, sig):
@@ -856,7 +859,7 @@ def generate(rng, seed, tier='quick'):
              'need_raw': rng.random() < 0.25,
              'mutation': rand_mut(rng) if rng.random() < 0.75 else None,
              '_fixup': None,
-             'verifier': 'match' if rng.random() < 0.9 else 'wrongkey'}
+             'verifier': 'match' if rng.random() < 0.86 else rng.choice(['wrongkey', 'samename'])}
         f.pop('_fixup')
         if f['name'][-1] == '36=ab' and rng.random() < 0.6:
             f['mutation'] = {'t': 'name2ap', 'refix': True}
